@@ -18,6 +18,9 @@
 //!     and sets of 2^k-1, 2^k, 2^k+1 items up to 2^16 (thorough 2^20).
 //!  8. arbitrary.values (only with the harness feature `with-arbitrary`): values
 //!     drawn through Arbitrary against their constructed twins.
+//!  9. history.independent (sequences on dedicated OS threads; panicking item sources,
+//!     failing sinks, abandoned iterators, re-entrant constructions), handed_out.iterators
+//!     (call sequences on the set iterators), display.parameters (format specs).
 //!  Every ordering is also checked through partial_cmp and < <= > >=; every
 //!  "equal => same hash" under three hashers (std, FxHash-style, write-call digest).
 //!
@@ -354,7 +357,286 @@ fn asn_serde_sweep(a: Asn) -> Result<(), String> {
     Ok(())
 }
 
+
+// ------------------------------------------- history / handed-out iterators / call parameters
+
+/// Runs `f` first thing on a brand-new OS thread (no thread-local of the library has been touched).
+fn fresh_thread<T: Send>(f: impl FnOnce() -> T + Send) -> Result<T, String> {
+    std::thread::scope(|sc| sc.spawn(f).join()).map_err(|_| "the evaluation thread died".to_string())
+}
+type Eval = Box<dyn Fn() -> String + Send + Sync>;
+fn g(f: impl FnOnce() -> String) -> String { guard(f).unwrap_or_else(|p| format!("PANIC {p}")) }
+/// Everything observable about a set.
+fn obs_set(s: &SmallAsnSet) -> String {
+    g(|| format!("items={:?} len={} empty={} contains(0,1,2,64497,MAX)={:?}", s.iter().map(|a| a.into_u32()).collect::<Vec<_>>(), s.len(), s.is_empty(),
+        [0u32, 1, 2, 64497, u32::MAX].map(|x| s.contains(Asn::from_u32(x)))))
+}
+/// An iterator over `items` that panics when asked for item number `after` (0-based).
+fn panicking(items: Vec<u32>, after: usize) -> impl Iterator<Item = Asn> {
+    items.into_iter().enumerate().map(move |(i, x)| { if i == after { panic!("item source failed") } Asn::from_u32(x) })
+}
+/// A text sink that fails once `room` octets have been written.
+struct Sink { room: usize, got: String }
+impl std::fmt::Write for Sink {
+    fn write_str(&mut self, s: &str) -> std::fmt::Result {
+        for c in s.chars() { if self.got.len() + c.len_utf8() > self.room { return Err(std::fmt::Error) } self.got.push(c) }
+        Ok(())
+    }
+}
+
+/// Model of `Display` under a format spec for a value whose text form is `canon` (see c12.rs): the spec is ignored or
+/// applied to the WHOLE text (padding with one fill character); numbers-with-structure are never cut or padded inside.
+fn display_spec_ok(out: &str, canon: &str, width: Option<usize>, align: char) -> bool {
+    if out == canon { return true }
+    let want_len = width.unwrap_or(0).max(canon.chars().count());
+    if out.chars().count() != want_len { return false }
+    for fill in [' ', '0'] {
+        for (pos, _) in out.match_indices(canon) {
+            let (l, r) = (&out[..pos], &out[pos + canon.len()..]);
+            if !l.chars().all(|c| c == fill) || !r.chars().all(|c| c == fill) { continue }
+            let (nl, nr) = (l.chars().count(), r.chars().count());
+            if match align { '<' => nl == 0, '>' => nr == 0, '^' => nl <= nr && nr - nl <= 1, _ => nl == 0 || nr == 0 } { return true }
+        }
+    }
+    false
+}
+fn display_renderings(v: &dyn std::fmt::Display, w: usize, p: usize) -> Vec<(String, String, Option<usize>, Option<usize>, char)> {
+    vec![
+        (format!("{{:{w}}}"), format!("{:1$}", v, w), Some(w), None, ' '),
+        (format!("{{:<{w}}}"), format!("{:<1$}", v, w), Some(w), None, '<'),
+        (format!("{{:^{w}}}"), format!("{:^1$}", v, w), Some(w), None, '^'),
+        (format!("{{:>{w}}}"), format!("{:>1$}", v, w), Some(w), None, '>'),
+        (format!("{{:0<{w}}}"), format!("{:0<1$}", v, w), Some(w), None, '<'),
+        (format!("{{:0^{w}}}"), format!("{:0^1$}", v, w), Some(w), None, '^'),
+        (format!("{{:0>{w}}}"), format!("{:0>1$}", v, w), Some(w), None, '>'),
+        (format!("{{:0{w}}}"), format!("{:01$}", v, w), Some(w), None, ' '),
+        (format!("{{:#{w}}}"), format!("{:#1$}", v, w), Some(w), None, ' '),
+        (format!("{{:+{w}}}"), format!("{:+1$}", v, w), Some(w), None, ' '),
+        (format!("{{:#}}"), format!("{:#}", v), None, None, ' '),
+        (format!("{{:+}}"), format!("{:+}", v), None, None, ' '),
+        (format!("{{:.{p}}}"), format!("{:.1$}", v, p), None, Some(p), ' '),
+        (format!("{{:{w}.{p}}}"), format!("{:1$.2$}", v, w, p), Some(w), Some(p), ' '),
+        (format!("{{:>{w}.{p}}}"), format!("{:>1$.2$}", v, w, p), Some(w), Some(p), '>'),
+        (format!("{{:0^{w}.{p}}}"), format!("{:0^1$.2$}", v, w, p), Some(w), Some(p), '^'),
+    ]
+}
+
+fn history_spaces(ctx: &Ctx, t0: &std::time::Instant) {
+    // ------------------------------------------------------------- history.independent
+    let sp = ctx.space("history.independent",
+        "subjects: SmallAsnSet built by collect / from_iter from 7 item lists (empty, one, repeated, unsorted, 100 items, filtered and chained sources), re-entrant constructions (the item source itself builds sets), the four set operations, Prefix / MaxLenPrefix / Asn FromStr on accepted texts and one text per rejection stage, Display, the Asn serde helpers on good and bad JSON, DER readers, comparisons and hashes; predecessors: every subject, item sources that panic after k = 0..=6 items (caught) for collect and from_iter, a panicking source inside a nested construction, Display into a sink that fails after k octets for every k, set-operation iterators abandoned after 0..=2 items, Asn::MAX + 1 (panics); for every predecessor (thorough: every ordered pair) a new OS thread runs the predecessor(s), then every subject in order and in reverse order; each observation must equal the one made first thing on a thread of its own; a re-entrant construction must observe like the plain one; non-trivial = (sequence, subject) evaluations whose predecessor is not the subject itself");
+    let lists: Vec<Vec<u32>> = vec![vec![], vec![7], vec![3, 1, 2, 3, 1], vec![u32::MAX, 0, u32::MAX], vec![64496, 64497, 64498], (0..100).rev().map(|x| x * 3).collect(), vec![5, 5, 5, 5]];
+    let mut subjects: Vec<(String, Eval)> = Vec::new();
+    let mut twins: Vec<(usize, usize)> = Vec::new();   // (re-entrant subject, plain subject) must observe the same
+    for l in &lists {
+        let plain = subjects.len();
+        let l1 = l.clone(); subjects.push((format!("collect({l:?})"), Box::new(move || g(|| obs_set(&l1.iter().map(|&x| Asn::from_u32(x)).collect::<SmallAsnSet>())))));
+        let l1 = l.clone(); subjects.push((format!("from_iter(filtered {l:?})"), Box::new(move || g(|| obs_set(&SmallAsnSet::from_iter(l1.iter().filter(|_| true).map(|&x| Asn::from_u32(x))))))));
+        let l1 = l.clone(); subjects.push((format!("from_iter(chained {l:?})"), Box::new(move || g(|| { let k = l1.len() / 2; obs_set(&SmallAsnSet::from_iter(l1[..k].iter().chain(l1[k..].iter()).map(|&x| Asn::from_u32(x)))) }))));
+        twins.push((subjects.len(), plain));
+        let l1 = l.clone(); subjects.push((format!("collect({l:?}) whose item source builds a set for every item"), Box::new(move || g(|| obs_set(&l1.iter().map(|&x| {
+            let inner: SmallAsnSet = [x, 1, 2].into_iter().map(Asn::from_u32).collect(); assert!(inner.contains(Asn::from_u32(x))); Asn::from_u32(x) }).collect::<SmallAsnSet>())))));
+        twins.push((subjects.len(), plain));
+        let l1 = l.clone(); subjects.push((format!("from_iter({l:?}) filtered through a deny set built per item"), Box::new(move || g(|| obs_set(&SmallAsnSet::from_iter(l1.iter().map(|&x| Asn::from_u32(x)).filter(|a| {
+            !SmallAsnSet::from_iter([Asn::from_u32(4_000_000_000)]).contains(*a) })))))));
+    }
+    for (a, b) in [(vec![1u32, 2, 3, 4], vec![3u32, 4, 5]), (vec![], vec![1]), ((0..40).collect::<Vec<u32>>(), vec![39, 40])] {
+        let (a1, b1) = (a.clone(), b.clone());
+        subjects.push((format!("set operations({a:?}, {b:?})"), Box::new(move || g(|| { let x: SmallAsnSet = a1.iter().map(|&v| Asn::from_u32(v)).collect(); let y: SmallAsnSet = b1.iter().map(|&v| Asn::from_u32(v)).collect();
+            let v = |i: &mut dyn Iterator<Item = Asn>| i.map(|q| q.into_u32()).collect::<Vec<_>>();
+            format!("{:?} {:?} {:?} {:?}", v(&mut x.union(&y)), v(&mut x.intersection(&y)), v(&mut x.difference(&y)), v(&mut x.symmetric_difference(&y))) }))));
+    }
+    for t in ["10.0.0.0/8", "::/0", "2001:db8::/32", "255.255.255.255/32", "", "10.0.0.0", "10.0.0/8", "10.0.0.0/x", "10.0.0.0/33", "10.0.0.1/8", "10.0.0.128/32", "ffff:ffff:ffff:ffff:ffff:ffff:ffff:ffff/128"] {
+        subjects.push((format!("Prefix::from_str({t:?})"), Box::new(move || g(|| format!("{:?} relaxed {:?}", Prefix::from_str(t).map(|p| (p.to_string(), h(&p))), Prefix::from_str_relaxed(t).map(|p| p.to_string()))))));
+        subjects.push((format!("Prefix from JSON {t:?}"), Box::new(move || g(|| format!("{:?}", serde_json::from_value::<Prefix>(serde_json::Value::String(t.to_string())).map(|p| p.to_string()).map_err(|_| ()))))));
+    }
+    for t in ["10.0.0.0/8-24", "10.0.0.0/8", "10.0.0.0/8-", "10.0.0.0/8-7", "10.0.0.0/8-33", "::/0-128", "10.0.0.0/x-9"] {
+        subjects.push((format!("MaxLenPrefix::from_str({t:?})"), Box::new(move || g(|| format!("{:?}", MaxLenPrefix::from_str(t).map(|p| (p.to_string(), p.resolved_max_len(), h(&p))))))));
+    }
+    for t in ["AS65000", "as0", "4294967295", "AS4294967296", "AS", "", "AS-1"] {
+        subjects.push((format!("Asn::from_str({t:?})"), Box::new(move || g(|| format!("{:?} any {:?}", Asn::from_str(t).map(|a| a.to_string()), asn_from_json(&serde_json::to_string(t).unwrap(), 2))))));
+    }
+    for j in ["1", "-1", "4294967296", "1.5", "\"AS1\"", "\"x\"", "null", "[1]"] {
+        subjects.push((format!("Asn serde helpers on JSON {j}"), Box::new(move || g(|| format!("{:?} {:?} {:?}", asn_from_json(j, 0), asn_from_json(j, 1), asn_from_json(j, 2))))));
+    }
+    for hexs in ["020100", "020500ffffffff", "0201ff", "0200", "040100", "02060100000000"] {
+        subjects.push((format!("Asn DER readers on {hexs}"), Box::new(move || g(|| { use bcder::decode::Constructed; use bcder::Mode; let b = rpki_verif::unhex(hexs);
+            format!("{:?} {:?}", Constructed::decode(b.as_slice(), Mode::Der, |c| Asn::take_from(c)).ok(), Constructed::decode(b.as_slice(), Mode::Der, |c| Asn::skip_in(c)).is_ok()) }))));
+    }
+    subjects.push(("route origin comparisons".into(), Box::new(|| g(|| { let p = Prefix::from_str("10.0.0.0/8").unwrap();
+        let a = RouteOrigin::new(MaxLenPrefix::new(p, None).unwrap(), Asn::from_u32(1)); let b = RouteOrigin::new(MaxLenPrefix::new(p, Some(8)).unwrap(), Asn::from_u32(1)); let c = RouteOrigin::new(MaxLenPrefix::new(p, Some(9)).unwrap(), Asn::from_u32(0));
+        format!("{:?} {:?} {} {} {:?}", a.cmp(&b), a.cmp(&c), a == b, h(&a) == h(&b), a.partial_cmp(&c)) }))));
+    // predecessors
+    let n_subj = subjects.len();
+    let mut extra: Vec<(String, Eval)> = Vec::new();
+    for k in 0..=6usize {
+        extra.push((format!("collect from a source that panics at item {k} (caught)"), Box::new(move || { let _ = guard(|| panicking(vec![64496, 64497, 64498, 64499, 64500, 64501, 64502], k).collect::<SmallAsnSet>()); String::new() })));
+        extra.push((format!("from_iter from a source that panics at item {k} (caught)"), Box::new(move || { let _ = guard(|| SmallAsnSet::from_iter(panicking(vec![64496, 64497, 64498, 64499, 64500, 64501, 64502], k))); String::new() })));
+    }
+    extra.push(("a nested construction whose inner source panics (caught)".into(), Box::new(|| { let _ = guard(|| [1u32, 2, 3].into_iter().map(|x| { let _ = panicking(vec![64496, 64497], 1).collect::<SmallAsnSet>(); Asn::from_u32(x) }).collect::<SmallAsnSet>()); String::new() })));
+    extra.push(("Asn::MAX + 1 (panics, caught)".into(), Box::new(|| { let _ = guard(|| Asn::MAX + 1); String::new() })));
+    for text in ["10.0.0.128/32", "2001:db8::/32-48", "AS65000"] { for k in 0..=text.len() {
+        extra.push((format!("Display of {text} into a sink that fails after {k} octets"), Box::new(move || { use std::fmt::Write; let mut sk = Sink { room: k, got: String::new() };
+            let _ = guard(|| if text.starts_with("AS") { write!(sk, "{}", Asn::from_str(text).unwrap()) } else if text.contains('-') { write!(sk, "{}", MaxLenPrefix::from_str(text).unwrap()) } else { write!(sk, "{}", Prefix::from_str(text).unwrap()) }); String::new() })));
+    }}
+    for n in 0..=2usize {
+        extra.push((format!("set-operation iterators abandoned after {n} items"), Box::new(move || { let _ = guard(|| { let x: SmallAsnSet = (0..20).map(Asn::from_u32).collect(); let y: SmallAsnSet = (10..30).map(Asn::from_u32).collect();
+            let _ = x.union(&y).take(n).count(); let _ = x.intersection(&y).take(n).count(); let _ = x.difference(&y).take(n).count(); let _ = x.symmetric_difference(&y).take(n).count(); let _ = x.iter().take(n).count(); }); String::new() })));
+    }
+    let np = n_subj + extra.len();
+    let pname = |k: usize| if k < n_subj { subjects[k].0.clone() } else { extra[k - n_subj].0.clone() };
+    let run_pred = |k: usize| { if k < n_subj { let _ = (subjects[k].1)(); } else { let _ = (extra[k - n_subj].1)(); } };
+    let baseline: Vec<String> = (0..n_subj).map(|i| fresh_thread(|| (subjects[i].1)()).unwrap_or_else(|e| e)).collect();
+    for (nested, plain) in &twins {
+        sp.eval();
+        if baseline[*nested] != baseline[*plain] { ctx.fail("C13.asnset.reentrant", subjects[*nested].0.clone(), format!("observes {}, the plain construction {}", rpki_verif::trunc(&baseline[*nested], 300), rpki_verif::trunc(&baseline[*plain], 300))) }
+    }
+    let seqs: Vec<Vec<usize>> = if ctx.tier.is_thorough() { (0..np).map(|a| vec![a]).chain((0..np).flat_map(|a| (n_subj..np).map(move |b| vec![a, b]))).chain((n_subj..np).flat_map(|a| (0..n_subj).map(move |b| vec![a, b]))).collect() } else { (0..np).map(|a| vec![a]).collect() };
+    for chunk in seqs.chunks(16) {
+        let outs: Vec<Result<Vec<(usize, String)>, String>> = std::thread::scope(|sc| {
+            let (rp, subj) = (&run_pred, &subjects);
+            let hs: Vec<_> = chunk.iter().map(|seq| sc.spawn(move || { for &k in seq { rp(k) }
+                let mut o: Vec<(usize, String)> = (0..n_subj).map(|i| (i, (subj[i].1)())).collect();
+                o.extend((0..n_subj).rev().map(|i| (i, (subj[i].1)()))); o })).collect();
+            hs.into_iter().map(|h| h.join().map_err(|_| "sequence thread died".to_string())).collect()
+        });
+        for (seq, out) in chunk.iter().zip(outs) {
+            let names = seq.iter().map(|&k| pname(k)).collect::<Vec<_>>().join(" ; then ");
+            match out {
+                Err(e) => ctx.fail("C13.history.independent", format!("after [{names}]"), e),
+                Ok(o) => for (pos, (i, got)) in o.iter().enumerate() {
+                    sp.eval(); if !seq.contains(i) { sp.nontrivial(1) }
+                    if *got != baseline[*i] {
+                        ctx.fail("C13.history.independent", format!("after [{names}] (subject #{pos} of the thread): {}", subjects[*i].0), format!("observed {}, but {} as the first evaluation of a new thread", rpki_verif::trunc(got, 300), rpki_verif::trunc(&baseline[*i], 300)));
+                    }
+                    sp.outcome(if got.contains("Err") || got.contains("None") || got.contains("PANIC") { "subject-with-a-rejection" } else { "subject-all-accepted" });
+                }
+            }
+        }
+    }
+    sp.set("subjects", json!(n_subj)); sp.set("predecessors", json!(np)); sp.set("sequences", json!(seqs.len()));
+    sp.sample_str(|| "after [collect from a source that panics at item 3 (caught)]: collect([3, 1, 2, 3, 1]) must still be [1, 2, 3]".into());
+    sp.done(true, &format!("{} sequences x {} subjects forwards and backwards, one OS thread per sequence", seqs.len(), n_subj));
+    lap(t0, &sp.name);
+
+    // ------------------------------------------------------------------- handed_out
+    let sp = ctx.space("handed_out.iterators",
+        "the iterators the set type hands out (iter, &set into_iter, union, intersection, difference, symmetric_difference) on 6 x 6 set pairs (sizes 0, 1, 3, 17, 40 with shared first / middle / last items): every sequence of up to 3 calls from {next, nth(0), nth(1), nth(5), size_hint, by_ref().take(2).count(), last (consumes)} followed by collecting the rest: each call must answer like the same call on an iterator over the reference result (BTreeSet), size_hint must bound the real remainder; non-trivial = sequences on a non-empty result");
+    {
+        let sets: Vec<Vec<u32>> = vec![vec![], vec![5], vec![1, 5, 9], (0..17).map(|x| x * 2).collect(), (0..40).collect(), vec![0, 16, 32, 39, 77]];
+        let ops = ["next", "nth(0)", "nth(1)", "nth(5)", "size_hint", "take(2).count", "last"];
+        let mut seqs: Vec<Vec<usize>> = vec![vec![]];
+        for a in 0..ops.len() { seqs.push(vec![a]); for b in 0..ops.len() { seqs.push(vec![a, b]); for c in 0..ops.len() { seqs.push(vec![a, b, c]) } } }
+        let drive = |it: &mut dyn Iterator<Item = Asn>, seq: &[usize], remaining_truth: &mut dyn FnMut() -> usize| -> Result<String, String> {
+            let mut log = String::new();
+            for &o in seq {
+                match o {
+                    0 => log.push_str(&format!("{:?};", it.next())), 1 => log.push_str(&format!("{:?};", it.nth(0))), 2 => log.push_str(&format!("{:?};", it.nth(1))), 3 => log.push_str(&format!("{:?};", it.nth(5))),
+                    4 => { let (lo, hi) = it.size_hint(); let _ = remaining_truth; log.push_str(&format!("hint({lo},{hi:?});")) }
+                    5 => log.push_str(&format!("{};", (&mut *it).take(2).count())),
+                    _ => { log.push_str(&format!("{:?};", (&mut *it).last())) }
+                }
+            }
+            log.push_str(&format!("rest={:?}", it.collect::<Vec<_>>()));
+            Ok(log)
+        };
+        let pairs: Vec<(usize, usize)> = (0..sets.len()).flat_map(|a| (0..sets.len()).map(move |b| (a, b))).collect();
+        let res: Vec<(Fails, u64, u64)> = pairs.par_iter().map(|&(ia, ib)| {
+            let mut fl = Fails::new(); let (mut ev, mut nt) = (0u64, 0u64);
+            let (ma, mb): (BTreeSet<u32>, BTreeSet<u32>) = (sets[ia].iter().copied().collect(), sets[ib].iter().copied().collect());
+            let (sa, sb): (SmallAsnSet, SmallAsnSet) = (sets[ia].iter().map(|&x| Asn::from_u32(x)).collect(), sets[ib].iter().map(|&x| Asn::from_u32(x)).collect());
+            for kind in 0..6usize {
+                let reference: Vec<u32> = match kind { 0 | 1 => ma.iter().copied().collect(), 2 => ma.union(&mb).copied().collect(), 3 => ma.intersection(&mb).copied().collect(), 4 => ma.difference(&mb).copied().collect(), _ => ma.symmetric_difference(&mb).copied().collect() };
+                let kname = ["iter", "into_iter", "union", "intersection", "difference", "symmetric_difference"][kind];
+                for seq in &seqs {
+                    ev += 1; if !reference.is_empty() { nt += 1 }
+                    let wit = || format!("{kname}({:?}, {:?}) calls={:?}", sets[ia], sets[ib], seq.iter().map(|&o| ops[o]).collect::<Vec<_>>());
+                    let want = drive(&mut reference.iter().map(|&x| Asn::from_u32(x)).collect::<Vec<_>>().into_iter(), seq, &mut || 0).unwrap();
+                    let got = guard(|| {
+                        let mut it: Box<dyn Iterator<Item = Asn>> = match kind { 0 => Box::new(sa.iter()), 1 => Box::new((&sa).into_iter()), 2 => Box::new(sa.union(&sb)),
+                            3 => Box::new(sa.intersection(&sb)), 4 => Box::new(sa.difference(&sb)), _ => Box::new(sa.symmetric_difference(&sb)) };
+                        drive(&mut *it, seq, &mut || 0)
+                    });
+                    // size hints are compared as bounds, not literally: strip them from both logs and check the bound separately
+                    let strip = |l: &str| l.split(';').filter(|p| !p.starts_with("hint(")).collect::<Vec<_>>().join(";");
+                    match got {
+                        Err(p) => fl.fail("C13.asnset.iterators", &wit, || p),
+                        Ok(Err(e)) => fl.fail("C13.asnset.iterators", &wit, || e),
+                        Ok(Ok(gl)) => {
+                            if strip(&gl) != strip(&want) { fl.fail("C13.asnset.iterators", &wit, || format!("calls answer {gl}, the reference {want}")) }
+                            // hint bounds: pair every hint in got with the exact remaining count recorded in want (the reference's hint is exact)
+                            let hints = |l: &str| l.split(';').filter(|p| p.starts_with("hint(")).map(|p| p.to_string()).collect::<Vec<_>>();
+                            for (hg, hw) in hints(&gl).iter().zip(hints(&want)) {
+                                let exact: usize = hw[5..hw.find(',').unwrap()].parse().unwrap();
+                                let lo: usize = hg[5..hg.find(',').unwrap()].parse().unwrap();
+                                let hi: Option<usize> = hg[hg.find(',').unwrap() + 1..hg.len() - 1].strip_prefix("Some(").map(|x| x.trim_end_matches(')').parse().unwrap());
+                                if lo > exact || hi.map(|h| h < exact).unwrap_or(false) { fl.fail("C13.asnset.iterators", &wit, || format!("size_hint {hg} does not bound the {exact} items that remain")) }
+                            }
+                        }
+                    }
+                }
+            }
+            (fl, ev, nt)
+        }).collect();
+        for (fl, ev, nt) in res { fl.flush(ctx); sp.evals(ev); sp.nontrivial(nt) }
+        sp.outcomes_n("call-sequences", seqs.len() as u64); sp.outcomes_n("set-pairs", pairs.len() as u64);
+        sp.sample_str(|| "union([1, 5, 9], [0, 16, 32, 39, 77]) calls=[nth(1), size_hint, last] then collect".into());
+        sp.done(true, &format!("{} set pairs x 6 iterator kinds x {} call sequences of length <= 3", pairs.len(), seqs.len()));
+        lap(t0, &sp.name);
+    }
+
+    // --------------------------------------------------------------- display.parameters
+    let sp = ctx.space("display.parameters",
+        "Display of prefixes (every prefix of length <= 4 of both families and lengths 8, 24, 25, 31, 32 / 32, 64, 127, 128 at 5 addresses, including ones whose text is cut short by a small precision such as 10.0.0.128/32), of max-len prefixes (max-len None, = length, family maximum) and of 103 boundary ASNs under width 0..=40 x {default, <, ^, >} x fill {SPACE, 0} x flags {#, +, 0} and precision 0..=40 (alone and with a width): the output must be the plain text or the WHOLE plain text padded with one fill character to the width - never a text in which a part was padded or cut, because that parses to no value or to a different one; checked by parsing back as well; non-trivial = renderings that differ from the plain text");
+    {
+        let mut vals: Vec<(String, Box<dyn std::fmt::Display + Send + Sync>, u8)> = Vec::new();
+        let mut mps: Vec<MP> = Vec::new();
+        for v4 in [true, false] {
+            let w = fam_w(v4);
+            for len in 0..=4u8 { for k in 0..(1u128 << len) { mps.push(MP { v4, addr: if len == 0 { 0 } else { k << (w - len as u32) }, len }) } }
+            let deep: &[u8] = if v4 { &[8, 24, 25, 31, 32] } else { &[32, 64, 127, 128] };
+            let full = low_ones(w);
+            for a in [0u128, full, if v4 { 0x0A00_0080 } else { 0x2001_0db8u128 << 96 | 0x80 }, full / 3, if v4 { 0xC0A8_0A80 } else { 1 }] { for &len in deep { mps.push(MP { v4, addr: a & !low_ones(w - len as u32), len }) } }
+        }
+        mps.sort(); mps.dedup();
+        for m in &mps {
+            let Ok(Ok(p)) = guard(|| Prefix::new(m.ip(), m.len)) else { continue };
+            vals.push((m.text(), Box::new(p), 0));
+            for ml in [None, Some(m.len), Some(fam_max(m.v4))] { if let Ok(Ok(v)) = guard(|| MaxLenPrefix::new(p, ml)) { vals.push((match ml { None => m.text(), Some(x) => format!("{}-{x}", m.text()) }, Box::new(v), 1)) } }
+        }
+        let mut asns: Vec<u32> = vec![0, 1, 2, 255, 256, 65535, 65536, u32::MAX - 1, u32::MAX]; for k in 1..32 { let p = 1u32 << k; asns.extend([p - 1, p, p + 1]) } asns.sort(); asns.dedup();
+        for a in asns { vals.push((format!("AS{a}"), Box::new(Asn::from_u32(a)), 2)) }
+        let res: Vec<(Fails, u64, u64)> = vals.par_iter().map(|(canon, v, kind)| {
+            let mut fl = Fails::new(); let (mut ev, mut nt) = (0u64, 0u64);
+            for w in 0..=40usize {
+                match guard(|| display_renderings(&**v, w, w)) {
+                    Err(pn) => fl.fail("C13.display.parameters", &|| format!("value={canon} width/precision={w}"), || pn),
+                    Ok(rs) => for (spec, out, width, _prec, align) in rs {
+                        ev += 1; if out != *canon { nt += 1 }
+                        let wit = || format!("value={canon} spec={spec}");
+                        if !display_spec_ok(&out, canon, width, align) {
+                            fl.fail("C13.display.parameters", &wit, || format!("renders as {out:?}: neither the plain text nor the whole plain text padded"));
+                            continue
+                        }
+                        // and the direct statement: without the fill the text parses back to the same value
+                        let core = if out == *canon { out.as_str() } else { let tr = out.trim_matches(' '); if tr.len() < out.len() { tr } else { canon.as_str() } };
+                        let back_ok = match kind { 0 => Prefix::from_str(core).map(|p| p.to_string()).ok(), 1 => MaxLenPrefix::from_str(core).map(|p| p.to_string()).ok(), _ => Asn::from_str(core).map(|p| p.to_string()).ok() };
+                        if back_ok.as_deref() != Some(canon.as_str()) { fl.fail("C13.display.parameters", &wit, || format!("renders as {out:?}; without the fill it parses to {back_ok:?}")) }
+                    }
+                }
+            }
+            (fl, ev, nt)
+        }).collect();
+        for (fl, ev, nt) in res { fl.flush(ctx); sp.evals(ev); sp.nontrivial(nt) }
+        sp.outcomes_n("values", vals.len() as u64); sp.outcomes_n("format-specs", 16 * 41);
+        sp.sample_str(|| "format!(\"{:<24}\", 0.0.0.0/0) and format!(\"{:.8}\", 10.0.0.128/32) must give the plain text (or the whole text padded), never \"0.0.0.0                 /0\" or \"10.0.0.1/32\"".into());
+        sp.done(true, &format!("{} values x 41 widths/precisions x 16 format specs", vals.len()));
+        lap(t0, &sp.name);
+    }
+}
+
 // ---------------------------------------------------------------------- main
+
 
 
 fn main() {
@@ -567,6 +849,15 @@ fn main() {
                     bump(oc, if a.to_string() == t { "asn-accepted-canonical" } else { "asn-accepted-other-spelling" });
                 }
             }
+            // Deserialize is another decode route: it must reject what FromStr rejects and give the same value otherwise
+            fl.check("C13.prefix.serde.fromstr", &wit, || {
+                let want = Prefix::from_str(t).ok();
+                let got = serde_json::from_value::<Prefix>(serde_json::Value::String(t.to_string())).ok();
+                let got2 = serde_json::from_str::<Prefix>(&serde_json::to_string(t).map_err(|e| e.to_string())?).ok();
+                if got != want || got2 != want { return Err(format!("Deserialize gives {got:?} / {got2:?}, FromStr gives {want:?}")) }
+                if let Some(p) = want { if serde_json::to_string(&p).ok() != serde_json::to_string(&p.to_string()).ok() { return Err("Serialize differs from the Display text".into()) } }
+                Ok(())
+            });
             // serde string spellings are siblings of FromStr: same verdict, same value
             fl.check("C13.asn.serde.fromstr", &wit, || {
                 let want = Asn::from_str(t).ok();
@@ -591,7 +882,7 @@ fn main() {
                 if thorough { for d2 in deviate(d) { run(&d2, &mut fl, &mut oc) } }
                 (fl, oc, n, acc)
             }).collect();
-            for (fl, oc, n, acc) in res { fl.flush(&ctx); sp.merge_outcomes(&oc); sp.evals(7 * n); accepted_all.extend(acc) }
+            for (fl, oc, n, acc) in res { fl.flush(&ctx); sp.merge_outcomes(&oc); sp.evals(9 * n); accepted_all.extend(acc) }
         }
         // numeric spellings of the length / max-len fields
         let addrs = ["10.0.0.0", "0.0.0.0", "255.255.255.255", "128.0.0.0", "::", "2001:db8::", "ffff::", "ffff:ffff:ffff:ffff:ffff:ffff:ffff:ffff"];
@@ -614,7 +905,7 @@ fn main() {
             let any = probe(&mut fl, &mut oc, t);
             (fl, oc, if any { Some(t.clone()) } else { None })
         }).collect();
-        for (fl, oc, acc) in res { fl.flush(&ctx); sp.merge_outcomes(&oc); sp.evals(7); if let Some(t) = acc { accepted_all.insert(t); } }
+        for (fl, oc, acc) in res { fl.flush(&ctx); sp.merge_outcomes(&oc); sp.evals(9); if let Some(t) = acc { accepted_all.insert(t); } }
         sp.nontrivial(accepted_all.len() as u64);
         sp.set("seeds", json!(seeds)); sp.set("numeric_spellings", json!(texts.len()));
         let lenient: Vec<&String> = accepted_all.iter().filter(|t| t.contains("/+") || t.contains("-+") || t.contains("/00") || t.contains("-00")).take(8).collect();
@@ -1205,6 +1496,7 @@ fn main() {
         lap(&t0, &sp.name);
     }
     arbitrary_space(&ctx, &t0);
+    history_spaces(&ctx, &t0);
     let suppressed = SUPPRESSED.load(AtomicOrdering::Relaxed);
     if suppressed > 0 {
         sp.set("failing_cases_counted_but_not_listed_individually", json!(suppressed));
